@@ -1,9 +1,9 @@
 package main
 
 import (
-	"strings"
 	"fmt"
 	"math"
+	"strings"
 
 	"github.com/biogo/biogo/feat"
 	"github.com/biogo/biogo/feat/gene"
@@ -355,7 +355,86 @@ func c20Case(r *obs.Run, i int) {
 		if len(model) == 0 {
 			kind = 0
 		}
+		if kind == 0 && len(model) != 0 && rng.Intn(3) == 0 {
+			kind = 7
+		}
 		switch kind {
+		case 7:
+			// layouts with empty exons at the start or the end of another exon, inside one or in an intron, in any argument
+			// order. Whether such a set is to be accepted is not fixed by the statement (and on the pinned tree depends on
+			// the order); what is fixed is that an accepted set is sorted, non-overlapping and tiles, and that a rejected one
+			// changes nothing. An ordinary set is installed again afterwards.
+			cut := c20Cut(r, 6)
+			withEmpty := append([]c20ex(nil), cut...)
+			for n := 1 + rng.Intn(2); n > 0; n-- {
+				k := rng.Intn(len(cut))
+				at := []int{cut[k].Off, cut[k].Off + cut[k].Len, cut[k].Off + rng.Intn(cut[k].Len), cut[k].Off + cut[k].Len + rng.Intn(3)}[rng.Intn(4)]
+				withEmpty = append(withEmpty, c20ex{at, 0})
+			}
+			in := mk(withEmpty, t)
+			rng.Shuffle(len(in), func(a, b int) { in[a], in[b] = in[b], in[a] })
+			var order []c20ex
+			for _, e := range in {
+				order = append(order, c20ex{e.Offset, e.Length})
+			}
+			h.Ops = append(h.Ops, fmt.Sprintf("SetExons(with empty exons, in this order: %v)", order))
+			before := snapshot()
+			if err := t.SetExons(in...); err != nil {
+				if !same(before, t.Exons()) {
+					fail("rejected-update-changed-exons", "rejected SetExons (layout with empty exons) changed the exon set")
+					return
+				}
+				r.Count("layouts_with_empty_exons_rejected", 1)
+			} else {
+				ex := t.Exons()
+				maxEnd := 0
+				for _, e := range withEmpty {
+					if e.Off+e.Len > maxEnd {
+						maxEnd = e.Off + e.Len
+					}
+				}
+				bad := ""
+				if len(ex) != len(withEmpty) {
+					bad = fmt.Sprintf("%d exons kept of %d given", len(ex), len(withEmpty))
+				}
+				for k := 1; k < len(ex) && bad == ""; k++ {
+					if ex[k].Start() < ex[k-1].Start() || ex[k].Start() < ex[k-1].End() {
+						bad = fmt.Sprintf("exon %d [%d,%d) follows exon [%d,%d)", k, ex[k].Start(), ex[k].End(), ex[k-1].Start(), ex[k-1].End())
+					}
+				}
+				if bad == "" && (ex.Start() != 0 || ex.End() != maxEnd || t.Len() != maxEnd) {
+					bad = fmt.Sprintf("exons span [%d,%d), transcript length %d, the largest exon end is %d", ex.Start(), ex.End(), t.Len(), maxEnd)
+				}
+				if bad == "" {
+					in := t.Introns()
+					for k := range in {
+						if in[k].Len() < 0 || in[k].Start() != ex[k].End() || in[k].End() != ex[k+1].Start() {
+							bad = fmt.Sprintf("intron %d is [%d,%d) between exons ending %d and starting %d", k, in[k].Start(), in[k].End(), ex[k].End(), ex[k+1].Start())
+						}
+					}
+				}
+				if bad != "" {
+					fail("accepted-layout-broken", "SetExons accepted a layout with empty exons and the transcript is not tiled: "+bad)
+					return
+				}
+				r.Count("layouts_with_empty_exons_accepted", 1)
+			}
+			valid := c20Cut(r, 16)
+			if err := t.SetExons(mk(valid, t)...); err != nil {
+				fail("accepted-rejected", fmt.Sprintf("SetExons rejected a valid exon set %v: %v", valid, err))
+				return
+			}
+			h.Ops = append(h.Ops, fmt.Sprintf("SetExons(valid %v)", valid))
+			model = valid
+			if len(valid) > maxEx {
+				maxEx = len(valid)
+			}
+			if ct != nil {
+				L := valid[len(valid)-1].Off + valid[len(valid)-1].Len
+				ct.CDSstart = rng.Intn(L + 1)
+				ct.CDSend = ct.CDSstart + rng.Intn(L-ct.CDSstart+1)
+				h.Ops = append(h.Ops, fmt.Sprintf("CDS=[%d,%d)", ct.CDSstart, ct.CDSend))
+			}
 		case 6: // re-orientation of one level of the chain (the fields are the caller's to assign): nothing may remember the old one
 			switch lv := rng.Intn(3); {
 			case lv == 0: // the transcript itself stays oriented
